@@ -23,6 +23,12 @@ pub struct Case {
     /// true: CTAP2-level make_credential with `rk` below
     pub ctap: bool,
     pub rk: bool,
+    /// authenticator configuration (hmac-secret 0/1/2, evaluation at creation, counters, id length)
+    #[serde(default)]
+    pub cfg: super::common::AuthCfg,
+    /// the registration also carries a prf input: 0 no, 1 empty prf object, 2 eval.first
+    #[serde(default)]
+    pub prf: u8,
 }
 fn cap_of(c: u8) -> Cap {
     match c {
@@ -41,12 +47,22 @@ pub fn cases() -> Vec<Case> {
                     continue; // no selection object, nothing to put the flag in
                 }
                 for cred_props in 0..3 {
-                    v.push(Case { cap, resident_key, require_resident_key, cred_props, ctap: false, rk: false });
+                    for (hmac, hmac_mc) in [(0u8, false), (1, false), (2, false), (2, true)] {
+                        for prf in 0..3u8 {
+                            for counter in [false, true] {
+                                let cfg = super::common::AuthCfg { counter, id_len: None, hmac, hmac_mc };
+                                v.push(Case { cap, resident_key, require_resident_key, cred_props, ctap: false, rk: false, cfg, prf });
+                            }
+                        }
+                    }
                 }
             }
         }
         for rk in [false, true] {
-            v.push(Case { cap, resident_key: 0, require_resident_key: false, cred_props: 0, ctap: true, rk });
+            for (hmac, hmac_mc) in [(0u8, false), (2, true)] {
+                let cfg = super::common::AuthCfg { counter: hmac != 0, id_len: (hmac != 0).then_some(32), hmac, hmac_mc };
+                v.push(Case { cap, resident_key: 0, require_resident_key: false, cred_props: 0, ctap: true, rk, cfg, prf: 0 });
+            }
         }
     }
     v
@@ -70,7 +86,7 @@ pub fn eval(c: &Case) -> (Vec<Finding>, String) {
     rs.cap = cap;
     let store = Shared::new(rs);
     let log = Log::new();
-    let auth = Authenticator::new(Aaguid::new_empty(), Logging { inner: store.clone(), log: log.clone() }, ScriptedUv::consenting(log.clone()));
+    let auth = super::common::mk_auth(Logging { inner: store.clone(), log: log.clone() }, ScriptedUv::consenting(log.clone()), &c.cfg);
     let origin = url::Url::parse("https://example.com").unwrap();
     let supports = cap != Cap::OnlyNonDiscoverable;
     let rk = if c.ctap { c.rk } else { expected_rk(c, supports) };
@@ -109,7 +125,12 @@ pub fn eval(c: &Case) -> (Vec<Finding>, String) {
             require_resident_key: c.require_resident_key,
             user_verification: Default::default(),
         });
-        let extensions = (c.cred_props != 0).then(|| webauthn::AuthenticationExtensionsClientInputs { cred_props: Some(c.cred_props == 2), prf: None, prf_already_hashed: None });
+        let prf = match c.prf {
+            0 => None,
+            1 => Some(webauthn::AuthenticationExtensionsPrfInputs { eval: None, eval_by_credential: None }),
+            _ => Some(webauthn::AuthenticationExtensionsPrfInputs { eval: Some(webauthn::AuthenticationExtensionsPrfValues { first: vec![1, 2, 3].into(), second: None }), eval_by_credential: None }),
+        };
+        let extensions = (c.cred_props != 0 || c.prf != 0).then(|| webauthn::AuthenticationExtensionsClientInputs { cred_props: (c.cred_props != 0).then_some(c.cred_props == 2), prf, prf_already_hashed: None });
         let opts = creation_options(Reg { selection, extensions, user_id: vec![7, 7], ..Default::default() });
         match par::catch(|| block_on(client.register(&origin, opts, DefaultClientData))) {
             Err(p) => {
@@ -221,7 +242,7 @@ pub fn run(ctx: &Ctx) -> Result<Run, String> {
     let n = cs.len() as u64;
     let mut run = Run::from_stats(
         "model_checking",
-        "complete product store capability(3) x residentKey{no selection, absent, discouraged, preferred, required} x requireResidentKey(2) x credProps{absent,false,true} through Client::register + Client::authenticate, plus capability(3) x rk(2) through Authenticator::make_credential; each configuration runs a registration and two assertions with the new credential (default requirement with a verified user; verification discouraged with a present but unverified user); every configuration is non-trivial (it reaches save_credential or the required-rk refusal)",
+        "complete product store capability(3) x residentKey{no selection, absent, discouraged, preferred, required} x requireResidentKey(2) x credProps{absent,false,true} x authenticator configuration {no hmac-secret, UV-only, with non-UV secret, with evaluation at creation} x prf input {absent, empty, eval} x counters on/off through Client::register + Client::authenticate, plus capability(3) x rk(2) through Authenticator::make_credential; each configuration runs a registration and two assertions with the new credential (default requirement with a verified user; verification discouraged with a present but unverified user); every configuration is non-trivial (it reaches save_credential or the required-rk refusal)",
         true,
         stats,
     );
